@@ -204,7 +204,13 @@ A check that is right was never loosened; these were errors of the machinery and
   consistent with that instead of flagging the difference;
 * C10: a panic on a damaged archive is counted as "not silently accepted" (no-panic is C05's subject);
 * C05: the in-process correspondence calls were given a time limit after a seeded non-terminating header search
-  stalled the check instead of producing a verdict.
+  stalled the check instead of producing a verdict;
+* C08 (after the C05 repairs): the C05 `fix:` commit for wow-mpq added two refusals to the patch path (an RLE
+  declared size above 128 bytes per input byte; a BSD0 new-file size above diff + extra bytes). The C08 model
+  still described the previous decoder, which zero-padded an over-declared RLE size, so 36 header-altered
+  patches were `err format` in the code and `ok` in the model. The code is right (a refusal never violates C08,
+  and every well-formed patch is still accepted - oracle `well-formed-patch-rejected-or-wrong`); the model
+  was brought back in line (`rleDecompress`, `applyBsd0`) and `rle_length` / `applyBsd0_size` re-proved.
 
 ## 9. Seeded changes (fresh sub-agents, own worktrees) and which check catches them
 
